@@ -22,6 +22,8 @@ Model ↔ code map (see docs/C16.md):
                                    `increment_local_mint_count_for_address`) + the two dispatched messages
 * `CollWl.addMember`            — sg-whitelist `execute_add_members` for a one-element list
 * `instantiate`                 — `contract::instantiate` + reply + whitelist-immutable `instantiate`
+* `EnvOp.setCwl` / `.time`      — the minter admin's `SetWhitelist` (any other whitelist state), block time
+* `Op.other`                    — every other message to the airdrop contract / whitelist-immutable (there is none)
 -/
 namespace LP.Airdrop
 open LP
